@@ -44,3 +44,8 @@ VARIANTS += [
     M('C15', 'refactor-tmp_dir-conditional-expression', E(BCM, "        self.tmp_dir = tmp_dir or tempfile.gettempdir()", "        self.tmp_dir = tmp_dir if tmp_dir else tempfile.gettempdir()"), kind='refactor'),
     M('C15', 'refactor-tmp_dir-if-statement', E(BCM, "        self.tmp_dir = tmp_dir or tempfile.gettempdir()", "        if not tmp_dir:\n            tmp_dir = tempfile.gettempdir()\n        self.tmp_dir = tmp_dir"), kind='refactor'),
 ]
+
+VARIANTS += [
+    M('C15', 'empty-actual-treated-as-absent', E(CF, "                if actual is not None and not raw_actual_path:", "                if actual and not raw_actual_path:"), rule='C15-EMPTY', key='actual'),
+    M('C15', 'refactor-content-test-reordered', E(CF, "                if actual is not None and not raw_actual_path:", "                if not raw_actual_path and actual is not None:"), kind='refactor'),
+]
